@@ -1234,8 +1234,8 @@ func mergeChunks(chunks []*MessageChunk) ([]byte, error) {
 
 	var b []byte
 	var seqnr uint32
-	for _, c := range chunks {
-		if c.SequenceHeader.SequenceNumber == seqnr {
+	for i, c := range chunks {
+		if i > 0 && c.SequenceHeader.SequenceNumber == seqnr {
 			continue // duplicate chunk
 		}
 		seqnr = c.SequenceHeader.SequenceNumber
